@@ -5,14 +5,6 @@ From SE Require Import Expr.Canon.
 Local Open Scope Z_scope.
 Definition bad_result (r : res expr) : bool := match r with Ok e => negb (canonical e) | _ => false end.
 Definition sx := ESym [120%N].
-(* (x**2)**(1/2) * (x * (x**2)**(1/2))  =  Mul{x:1, x**2:1}   (DESIGN row 36) *)
-Theorem C03_mul_pow_key_refuted :
-  exists a b, canonical a = true /\ canonical b = true /\ bad_result (api_run OMul [a; b]) = true.
-Proof.
-  exists (EPow (EPow sx (e_int 2)) e_half),
-         (EMul (NInt 1) [(sx, e_int 1); (EPow sx (e_int 2), e_half)]).
-  vm_compute. repeat split; reflexivity.
-Qed.
 (* 0**x + 0**x = Mul(2, {0: x}): Pow::is_canonical accepts 0**x, Mul::is_canonical rejects the key 0 *)
 Theorem C03_zero_key_refuted :
   exists a, canonical a = true /\ bad_result (api_run OAdd [a; a]) = true.
